@@ -67,6 +67,22 @@ def check_case(ctx, cs):
                 ref.sample_size = 3
                 if not close_seq(g, [list(x) for x in ref.evalpts]):
                     ctx.violate(site.replace("evaluate_single", "evalpts"), tg + ctag, small, {"got0": g[0]})
+        # partial-range evaluation from the query parameter to the end of the domain: the same points under every knot range
+        if pd <= 2 and "span=linear" in ctag:
+            def part(ob, q):
+                ob.sample_size = 3
+                if pd == 1:
+                    ob.evaluate(start=q[0], stop=ob.domain[1])
+                else:
+                    ob.evaluate(start_u=q[0], stop_u=ob.domain[0][1], start_v=q[1], stop_v=ob.domain[1][1])
+                return [list(x) for x in ob.evalpts]
+            try:
+                got_part = part(mk(), p)
+                ref_part = part(build(sh), prm)
+                if not close_seq(got_part, ref_part):
+                    ctx.violate(site.replace("evaluate_single", "evaluate(start, stop)"), tg + ctag, small, {"got0": got_part[0], "expected0": ref_part[0]})
+            except Exception as e:
+                ctx.violate(site.replace("evaluate_single", "evaluate(start, stop)"), tg + ctag + ["raises"], small, {"exception": repr(e)[:200]})
         # derivatives: default and alternative evaluator, scaled by a^-k on the raw range
         if not sh["rat"] and pd <= 2 and o["ders"]:
             for ename, ev in (("default", None), ("alternative", evaluators.CurveEvaluator2() if pd == 1 else evaluators.SurfaceEvaluator2())):
